@@ -55,6 +55,7 @@ type replayFile struct {
 	Outcome  string                 `json:"outcome,omitempty"`
 	Detail   string                 `json:"detail,omitempty"`
 	Property string                 `json:"property,omitempty"`
+	Tables   map[string][]string    `json:"tables,omitempty"`
 }
 
 type nativeResult struct {
@@ -200,7 +201,7 @@ func runCheck(id, tier string, seed int64, only string) int {
 	}
 	for _, rep := range reports {
 		for k, v := range rep.Violations {
-			rf := replayFile{Harness: rep.Harness, Label: v.Label, Inputs: v.Inputs, Forks: forksToInts(v.Forks), Tier: tierN, Detail: v.Detail, Property: id}
+			rf := replayFile{Harness: rep.Harness, Label: v.Label, Inputs: v.Inputs, Forks: forksToInts(v.Forks), Tier: tierN, Detail: v.Detail, Property: id, Tables: v.Tables}
 			p := filepath.Join(rdir, fmt.Sprintf("%s-v%d.json", rep.Harness, k))
 			pend = append(pend, pending{rf, p, true})
 		}
@@ -212,7 +213,7 @@ func runCheck(id, tier string, seed int64, only string) int {
 			if s.Outcome != "ok" && s.Outcome != "done" {
 				continue
 			}
-			rf := replayFile{Harness: rep.Harness, Inputs: s.Inputs, Tier: tierN, Reached: s.Reached, Observed: s.Observed, Outcome: s.Outcome, Property: id}
+			rf := replayFile{Harness: rep.Harness, Inputs: s.Inputs, Tier: tierN, Reached: s.Reached, Observed: s.Observed, Outcome: s.Outcome, Property: id, Tables: s.Tables}
 			rf.Forks = forksFromTraceSample(s)
 			p := filepath.Join(rdir, fmt.Sprintf("%s-s%d.json", rep.Harness, cnt))
 			pend = append(pend, pending{rf, p, false})
@@ -520,26 +521,26 @@ func writeEvidence(id, tier string, seed int64, t0 time.Time, reports []*interp.
 	}
 	sort.Strings(fl)
 	cov := map[string]interface{}{
-		"states":                        max1(states),
-		"transitions":                   max1(transitions),
-		"traces_validated_against_impl": validated,
-		"samples":                       samples,
-		"explanation": "bounded symbolic execution of the real code's SSA (regenerated from /repo on this run); states = explored path classes, transitions = solver-decided branch/fault decisions; traces_validated = native replays (counterexamples and sampled paths) that agreed with the engine",
-		"harnesses":                     harnessInfo,
-		"functions_encoded":             fl,
-		"functions_encoded_count":       len(fl),
-		"solver_queries":                queries,
-		"assertions":                    asserts,
+		"states":                              max1(states),
+		"transitions":                         max1(transitions),
+		"traces_validated_against_impl":       validated,
+		"samples":                             samples,
+		"explanation":                         "bounded symbolic execution of the real code's SSA (regenerated from /repo on this run); states = explored path classes, transitions = solver-decided branch/fault decisions; traces_validated = native replays (counterexamples and sampled paths) that agreed with the engine",
+		"harnesses":                           harnessInfo,
+		"functions_encoded":                   fl,
+		"functions_encoded_count":             len(fl),
+		"solver_queries":                      queries,
+		"assertions":                          asserts,
 		"assertions_discharged_syntactically": assertSyn,
-		"assertion_queries":             assertQ,
-		"inconclusive_queries":          unknowns,
-		"solver_time_s":                 round1(solverS),
-		"solver":                        "z3 4.8.12 (z3 -in, push/pop per path and query)",
-		"bounds":                        spec.Bounds[tier],
-		"outside_the_claim":             spec.Outside,
-		"incomplete":                    incomplete,
-		"complete":                      len(incomplete) == 0,
-		"exhaustive":                    false,
+		"assertion_queries":                   assertQ,
+		"inconclusive_queries":                unknowns,
+		"solver_time_s":                       round1(solverS),
+		"solver":                              "z3 4.8.12 (z3 -in, push/pop per path and query)",
+		"bounds":                              spec.Bounds[tier],
+		"outside_the_claim":                   spec.Outside,
+		"incomplete":                          incomplete,
+		"complete":                            len(incomplete) == 0,
+		"exhaustive":                          false,
 	}
 	for k, v := range extra {
 		cov[k] = v
